@@ -22,16 +22,16 @@ MAPS = {
 OVERLAP = [DecAll(), DecHi(1, 1)]      # not disjoint: outside the theorems' hypothesis, the model must still agree
 
 
-def _alpha(n, m, level):
+def _alpha(n, m, level, adrs=(0, 1, 2)):
     """level 2: every control combination (cyc/stb/we independent, ack&err together); 1: protocol-shaped
-    (idle/request on every address, silent/ack/err); 0: reduced (three addresses, silent/ack);
+    (idle/request on every address, silent/ack/err); 0: reduced (three addresses `adrs`, silent/ack);
     -1: reduced, and at most one slave acknowledges per cycle."""
     if level == 2:
         return small_alphabet(n, m, full=True, slave_full=(n * m <= 2))
     if level == 1:
         return small_alphabet(n, m)
     keep = []
-    for l in small_alphabet(n, m, adrs=(0, 1, 2)):
+    for l in small_alphabet(n, m, adrs=adrs):
         ss = wblib.split_letter(l, n, m)[1]
         if any(s[1] for s in ss):
             continue                      # no err letters
@@ -109,6 +109,8 @@ def jobs(tier, seed=0):
     for n in (1, 2, 3):
         for m in (1, 2, 3):
             for mi, (mapname, decs) in enumerate(MAPS[m]):
+                # reduced alphabets use three addresses: keep the unmapped one of the 3-slave "hole" map
+                ra = (0, 2, 3) if (m == 3 and mapname == "hole") else (0, 1, 2)
                 for reg in (False, True):
                     for to in (None, 2):
                         level = _levels(tier, "shared", n, m, reg, to, mi > 0)
@@ -116,16 +118,16 @@ def jobs(tier, seed=0):
                             continue
                         name = "Shared %dx%d %s%s%s a%d" % (n, m, mapname, " reg" if reg else "",
                                                            " to=2" if to else "", level)
-                        A(lambda n=n, m=m, decs=decs, reg=reg, to=to, level=level, name=name:
-                          make_shared(n, decs, register=reg, timeout=to, alphabet=_alpha(n, m, level), name=name),
+                        A(lambda n=n, m=m, decs=decs, reg=reg, to=to, level=level, name=name, ra=ra:
+                          make_shared(n, decs, register=reg, timeout=to, alphabet=_alpha(n, m, level, ra), name=name),
                           _cost("shared", n, m, reg, to, level))
                     # crossbar (timeout_cycles is accepted and ignored by the real code)
                     level = _levels(tier, "xbar", n, m, reg, None, mi > 0)
                     if level is None:
                         continue
                     name = "Crossbar %dx%d %s%s a%d" % (n, m, mapname, " reg" if reg else "", level)
-                    A(lambda n=n, m=m, decs=decs, reg=reg, level=level, name=name:
-                      make_xbar(n, decs, register=reg, alphabet=_alpha(n, m, level), name=name,
+                    A(lambda n=n, m=m, decs=decs, reg=reg, level=level, name=name, ra=ra:
+                      make_xbar(n, decs, register=reg, alphabet=_alpha(n, m, level, ra), name=name,
                                 timeout_arg=2 if reg else None), _cost("xbar", n, m, reg, None, level))
     # the two building blocks on their own (Arbiter = n x 1 without decoder, Decoder = 1 x m without arbiter)
     A(lambda: make_arbiter(3, alphabet=_alpha(3, 1, 1)), 2000)
